@@ -9,7 +9,7 @@ import multiprocessing as mp
 
 from . import env
 from . import harness
-from .canon import canon, observation
+from .canon import canon, observation, digest as state_digest
 
 INF = float("inf")
 NWORKERS = int(os.environ.get("CIWMC_WORKERS", "0")) or min(16, os.cpu_count() or 1)
@@ -25,16 +25,16 @@ class Accounting(object):
         self.acc = acc
 
     def on_init(self, Q):
-        h = hash(canon(Q))
+        h = state_digest(canon(Q))
         self.prev = h
         self.k = len(self.hub.ctx.choices)
         self.acc.add_state(h)
 
     def on_boundary(self, Q):
-        h = hash(canon(Q))
+        h = state_digest(canon(Q))
         ctx = self.hub.ctx
         label = (self.hub.cur_event[1], self.hub.cur_event[2], tuple(ctx.choices[self.k:]))
-        self.acc.add_transition(hash((self.prev, label, h)))
+        self.acc.add_transition(state_digest((self.prev, label, h)))
         self.acc.add_state(h)
         self.prev = h
         self.k = len(ctx.choices)
@@ -143,7 +143,7 @@ def _dev_counts(choices):
 
 
 def _digest(obj):
-    return hash(obj)
+    return state_digest(obj)
 
 
 def _work(task):
@@ -171,7 +171,7 @@ def _work(task):
             ACC._add("obs", od)
             if account and res.Q is not None:
                 try:
-                    ACC._add("endstates", hash(canon(res.Q)))
+                    ACC._add("endstates", state_digest(canon(res.Q)))
                 except Exception:
                     pass
             nt = spec.nontrivial(cfg, res)
